@@ -25,19 +25,19 @@ def ResR : Except Unit String → Except Unit String → Prop
 /-! ## small updates of related states -/
 
 theorem R.log {s : St} {t : Spec.LSt} (hR : R s t) (e : Event) : R (s.log e) (t.log e) :=
-  ⟨hR.T, hR.S, hR.G, hR.C, hR.K, hR.sigs, hR.ownedT, hR.ownedK, hR.next, hR.depth, hR.steps,
+  ⟨hR.T, hR.S, hR.G, hR.C, hR.K, hR.sigs, hR.ownedT, hR.ownedK, hR.ownedG, hR.next, hR.depth, hR.steps,
     Allows.cons_same hR.trace e, hR.k1, hR.k2⟩
 
 theorem R.logRes {s : St} {t : Spec.LSt} (hR : R s t) (d : Nat) (text : String) {rs rm : String} (hr : ResAllows rs rm) :
     R (s.log (.res d text rm)) (t.log (.res d text rs)) :=
-  ⟨hR.T, hR.S, hR.G, hR.C, hR.K, hR.sigs, hR.ownedT, hR.ownedK, hR.next, hR.depth, hR.steps,
+  ⟨hR.T, hR.S, hR.G, hR.C, hR.K, hR.sigs, hR.ownedT, hR.ownedK, hR.ownedG, hR.next, hR.depth, hR.steps,
     Allows.cons_res hR.trace d text hr, hR.k1, hR.k2⟩
 
 theorem R.setDepth {s : St} {t : Spec.LSt} (hR : R s t) (d : Nat) : R { s with depth := d } { t with depth := d } :=
-  ⟨hR.T, hR.S, hR.G, hR.C, hR.K, hR.sigs, hR.ownedT, hR.ownedK, hR.next, rfl, hR.steps, hR.trace, hR.k1, hR.k2⟩
+  ⟨hR.T, hR.S, hR.G, hR.C, hR.K, hR.sigs, hR.ownedT, hR.ownedK, hR.ownedG, hR.next, rfl, hR.steps, hR.trace, hR.k1, hR.k2⟩
 
 theorem R.setSteps {s : St} {t : Spec.LSt} (hR : R s t) (n : Nat) : R { s with steps := n } { t with steps := n } :=
-  ⟨hR.T, hR.S, hR.G, hR.C, hR.K, hR.sigs, hR.ownedT, hR.ownedK, hR.next, hR.depth, rfl, hR.trace, hR.k1, hR.k2⟩
+  ⟨hR.T, hR.S, hR.G, hR.C, hR.K, hR.sigs, hR.ownedT, hR.ownedK, hR.ownedG, hR.next, hR.depth, rfl, hR.trace, hR.k1, hR.k2⟩
 
 /-! ## `Quiet` -/
 
